@@ -78,6 +78,21 @@ def check_w1(chk, m):
                    "read by the other, so encode->decode (or decode->encode) is not the identity" % (j, a, b),
                    loc, "rf_wavheader_encode/decode")
     chk.expect("W1", "guarded cases compared", n, 4)
+    # every integer on the wire lands in (and is taken from) a structure member that can hold it: a member narrower than
+    # its wire field loses the upper bytes on decode and re-encodes them as zero
+    seen_w = set()
+    for who, G in (("encode", E), ("decode", D)):
+        for k, lst in G.items():
+            for it in lst[0][0]:
+                if it.kind == "int" and it.field in table and (who, it.field) not in seen_w:
+                    seen_w.add((who, it.field))
+                    wire = it.width
+                    have = table[it.field][1]
+                    chk.ob("W1.field-width", "%s %s" % (who, it.field), have >= wire,
+                           "%d-byte wire field <-> %d-byte member %s" % (wire, have, it.field) if have >= wire else
+                           "the %d-byte wire field is kept in the %d-byte member %s: a header whose value there does not fit is accepted, "
+                           "decodes with the right length, and re-encodes to different bytes" % (wire, have, it.field), it.loc,
+                           "rf_wavheader_" + who)
     # byte-array lengths fit their fields
     for who, G in (("encode", E), ("decode", D)):
         for k, lst in G.items():
@@ -138,7 +153,16 @@ def init_states(chk, m):
             elif e.kind == "store":
                 f = wav.field_name(e.ptr, fn, m, wh)
                 if f:
-                    st[f] = paths.partial_eval(e.val, {("arg", fmt_arg): v})
+                    # a value computed from members written earlier in the same call (a size summed from the chunk sizes just
+                    # stored): substitute what those members hold at this moment
+                    env = {("arg", fmt_arg): v}
+                    for x in paths.subexprs(e.val):
+                        if x[0] == "ld" and x[1] is not None and ptr_parts(x[1])[0] == ("arg", wh):
+                            g = wav.field_name(x[1], fn, m, wh)
+                            cur = st.get(g) if g else None
+                            if cur is not None and cur[0] == "c" and x[2] * 8 == cur[1]:
+                                env[x] = cur[2]
+                    st[f] = paths.partial_eval(e.val, env)
         states[name] = (st, p)
     return fn, wh, fmt_arg, states, table
 
